@@ -28,7 +28,13 @@ pub struct Machine<'a> {
     pub opaque: BTreeMap<String, bool>,
     /// user-supplied method table: (receiver value, method) -> value
     pub methods: &'a dyn Fn(&V, &str, &[V]) -> Option<V>,
+    /// cargo features considered enabled when a statement carries #[cfg(feature = "..")]
+    pub features: Vec<String>,
+    /// value of a `return` being unwound to the enclosing closure / function
+    returning: Option<V>,
 }
+
+const RETURN_SIGNAL: &str = "\u{0}return";
 
 pub type R = Result<V, String>;
 
@@ -57,7 +63,7 @@ pub fn utf8_len(c: u32) -> usize {
 
 impl<'a> Machine<'a> {
     pub fn new(methods: &'a dyn Fn(&V, &str, &[V]) -> Option<V>) -> Self {
-        Machine { env: vec![BTreeMap::new()], written: 0, wrote_escape: false, opaque: BTreeMap::new(), methods }
+        Machine { env: vec![BTreeMap::new()], written: 0, wrote_escape: false, opaque: BTreeMap::new(), methods, features: vec![], returning: None }
     }
     pub fn set(&mut self, k: &str, v: V) {
         self.env.last_mut().unwrap().insert(k.to_string(), v);
@@ -148,6 +154,14 @@ impl<'a> Machine<'a> {
             },
             syn::Pat::TupleStruct(ts) => {
                 let name = sm::tsc(&ts.path);
+                // Ok(x) values are represented by x itself, Err(..) values by Enum("Err(..)")
+                let v_is_err = matches!(v, V::Enum(e) if e.starts_with("Err("));
+                if name == "Ok" && ts.elems.len() == 1 {
+                    return if v_is_err { Ok(false) } else { self.pat_matches(&ts.elems[0], v) };
+                }
+                if name == "Err" && ts.elems.len() == 1 {
+                    return Ok(v_is_err);
+                }
                 match v {
                     V::Opt(Some(inner)) if name == "Some" && ts.elems.len() == 1 => self.pat_matches(&ts.elems[0], inner),
                     V::Enum(e) => {
@@ -158,7 +172,38 @@ impl<'a> Machine<'a> {
                     _ => Ok(false),
                 }
             }
+            syn::Pat::Struct(ps) => {
+                // Variant { .. } on abstract enums: compare names, ignore fields
+                let name = sm::tsc(&ps.path);
+                match v {
+                    V::Enum(e) => {
+                        let base = e.split(['(', '{']).next().unwrap_or("");
+                        Ok(base == name || base.ends_with(&format!("::{}", name)) || name.ends_with(&format!("::{}", base)))
+                    }
+                    _ => Ok(false),
+                }
+            }
             other => Err(format!("pattern `{}`", sm::tsc(other))),
+        }
+    }
+
+    /// Apply a one-parameter closure to a value; a `return` inside ends the closure with that value.
+    fn call_closure(&mut self, c: &syn::ExprClosure, v: &V) -> R {
+        if c.inputs.len() != 1 {
+            return Err("closure arity".into());
+        }
+        let depth = self.env.len();
+        self.env.push(BTreeMap::new());
+        let ok = self.pat_matches(&c.inputs[0], v)?;
+        if !ok {
+            self.env.truncate(depth);
+            return Err("closure parameter pattern does not match".into());
+        }
+        let r = self.eval(&c.body);
+        self.env.truncate(depth);
+        match r {
+            Err(e) if e == RETURN_SIGNAL => Ok(self.returning.take().unwrap_or(V::Unit)),
+            other => other,
         }
     }
 
@@ -166,6 +211,25 @@ impl<'a> Machine<'a> {
         self.env.push(BTreeMap::new());
         let mut last = V::Unit;
         for s in &b.stmts {
+            // statements compiled only with a cargo feature that is off are skipped
+            let attrs: &[syn::Attribute] = match s {
+                syn::Stmt::Local(l) => &l.attrs,
+                syn::Stmt::Expr(e, _) => match e {
+                    syn::Expr::If(x) => &x.attrs,
+                    syn::Expr::Match(x) => &x.attrs,
+                    syn::Expr::MethodCall(x) => &x.attrs,
+                    syn::Expr::Call(x) => &x.attrs,
+                    syn::Expr::Block(x) => &x.attrs,
+                    syn::Expr::Return(x) => &x.attrs,
+                    syn::Expr::Assign(x) => &x.attrs,
+                    _ => &[],
+                },
+                _ => &[],
+            };
+            let gated_off = sm::cfg_features(attrs).iter().any(|(f, positive)| self.features.contains(f) != *positive);
+            if gated_off {
+                continue;
+            }
             match s {
                 syn::Stmt::Local(l) => {
                     let v = match &l.init {
@@ -396,6 +460,14 @@ impl<'a> Machine<'a> {
                     }
                 }
             }
+            syn::Expr::Return(r) => {
+                let v = match &r.expr {
+                    Some(x) => self.eval(x)?,
+                    None => V::Unit,
+                };
+                self.returning = Some(v);
+                Err(RETURN_SIGNAL.to_string())
+            }
             syn::Expr::If(i) => {
                 let c = self.eval(&i.cond)?;
                 match c {
@@ -410,6 +482,9 @@ impl<'a> Machine<'a> {
             syn::Expr::Match(m) => {
                 let v = self.eval(&m.expr)?;
                 for arm in &m.arms {
+                    if sm::cfg_features(&arm.attrs).iter().any(|(f, positive)| self.features.contains(f) != *positive) {
+                        continue;
+                    }
                     self.env.push(BTreeMap::new());
                     let hit = self.pat_matches(&arm.pat, &v)?;
                     let guard_ok = if hit {
@@ -487,6 +562,27 @@ impl<'a> Machine<'a> {
                     }
                 }
                 let recv = self.eval(&mc.receiver)?;
+                // Option / Result combinators with a closure (Ok(x) is represented by x, Err(..) by Enum("Err(..)"))
+                if mc.args.len() == 1 {
+                    if let syn::Expr::Closure(c) = &mc.args[0] {
+                        let is_err = matches!(&recv, V::Enum(e) if e.starts_with("Err("));
+                        match (m.as_str(), &recv) {
+                            ("is_some_and", V::Opt(None)) => return Ok(V::Bool(false)),
+                            ("is_some_and", V::Opt(Some(inner))) => return self.call_closure(c, &inner.clone()),
+                            ("is_ok_and", _) if is_err => return Ok(V::Bool(false)),
+                            ("is_ok_and", v) => return self.call_closure(c, &v.clone()),
+                            ("map", V::Opt(None)) => return Ok(V::Opt(None)),
+                            ("map", V::Opt(Some(inner))) => {
+                                let r = self.call_closure(c, &inner.clone())?;
+                                return Ok(V::Opt(Some(Box::new(r))));
+                            }
+                            _ => {}
+                        }
+                    }
+                }
+                if mc.args.is_empty() && matches!(m.as_str(), "as_ref" | "as_deref" | "clone" | "copied" | "cloned") {
+                    return Ok(recv);
+                }
                 let mut args = vec![];
                 for a in &mc.args {
                     args.push(self.eval(a)?);
